@@ -215,7 +215,7 @@ fn resolve_mates(records: &mut [Record]) -> io::Result<()> {
         // "The TLEN field is positive for the leftmost segment of the template, negative for the
         // rightmost, and the sign for any middle segment is undefined. If segments cover the same
         // coordinates then the choice of which is leftmost and rightmost is arbitrary..."
-        let template_length = calculate_template_length(record, mate);
+        let mut template_length = calculate_template_length(record, mate);
 
         // The leftmost segment is the one with the smallest alignment start, which is not
         // necessarily the first one in the slice. Ties go to the first one.
@@ -225,6 +225,12 @@ fn resolve_mates(records: &mut [Record]) -> io::Result<()> {
         while let Some(mate_index) = mate_indices[j] {
             if records[mate_index].alignment_start < records[leftmost_index].alignment_start {
                 leftmost_index = mate_index;
+            }
+
+            // "[TLEN is] set as 0 ... when the information is unavailable", e.g., when the
+            // segments are mapped to different reference sequences.
+            if records[mate_index].reference_sequence_id != records[i].reference_sequence_id {
+                template_length = 0;
             }
 
             j = mate_index;
